@@ -109,6 +109,18 @@ def run_case(ctx, n, edges, fl, red, names):
     return out
 
 
+def replay(case):
+    _TIMEOUTS[0] = 0
+    ctx = new_ctx()
+    try:
+        red = case["redirect"]
+        res = run_case(ctx, case["n"], [tuple(e) for e in case["edges"]], case["flags"], tuple(red) if red else None,
+                       SCHEMES[case["naming"]])
+    finally:
+        close_ctx(ctx)
+    return [{"oracle": o, "observed": ob, "expected": ex} for o, ob, ex in res]
+
+
 def graphs_from_masks(n, masks):
     pairs = [(i, j) for i in range(n) for j in range(n)]
     for mask in masks:
